@@ -2,7 +2,7 @@
 # try_seed.sh <patch.diff> <PID>... : applies the patch to /repo, runs the quick checks, undoes it.
 # Evidence and replay files of these runs go to a scratch directory (VERIF_OUT), never to /verif/evidence:
 # the committed evidence must always describe the unchanged tree.
-P="$1"; shift
+P="$(readlink -f "$1")"; shift
 [ -z "$(git -C /repo status --porcelain)" ] || { echo "/repo has uncommitted changes; refusing"; exit 2; }
 git -C /repo apply "$P" || { echo "patch does not apply"; exit 2; }
 OUT="$(mktemp -d /var/tmp/verif-seed.XXXXXX)"
